@@ -5,8 +5,9 @@ import vlib
 TARGETS = ["Base/Corr.vo", "C18/Model.vo", "C18/Corr.vo", "C18/TableModel.vo", "C18/TableCorr.vo", "C18/ConfigModel.vo", "C18/ConfigCorr.vo", "C18/ProofsTable.vo", "C18/ProofsConfig.vo", "C18/Spec.vo", "C18/SpecTest.vo", "C18/ProofsBase.vo",
            "C18/ProofsScalar.vo", "C18/ProofsSparse.vo", "C18/ProofsDense.vo", "C18/ProofsSparseMat.vo", "C18/ProofsInst.vo", "C18/ProofsTable2.vo", "C18/ProofsConfig2.vo", "C18/Props.vo",
            "C18/RecvModel.vo", "C18/RecvCorr.vo", "C18/ProofsRecv.vo", "C18/PropsRecv.vo",
-           "C18/ConfigModelV.vo", "C18/ConfigCorrV.vo", "C18/ProofsConfigV.vo", "C18/ProofsConfigV2.vo", "C18/RegistryModel.vo", "C18/RegistryCorr.vo", "C18/ProofsRegistry.vo", "C18/PropsV.vo"]
-PROPS = ["C18/Props.v", "C18/PropsRecv.v", "C18/PropsV.v"]
+           "C18/ConfigModelV.vo", "C18/ConfigCorrV.vo", "C18/ProofsConfigV.vo", "C18/ProofsConfigV2.vo", "C18/RegistryModel.vo", "C18/RegistryCorr.vo", "C18/ProofsRegistry.vo", "C18/PropsV.vo",
+           "C18/ProofsMixed.vo", "C18/ProofsRecv7.vo", "C18/PropsR7.vo"]
+PROPS = ["C18/Props.v", "C18/PropsRecv.v", "C18/PropsV.v", "C18/PropsR7.v"]
 STEMS = ["cases", "tcases", "ccases", "rcases", "vcases", "gcases"]
 CORPUS = os.path.join(vlib.ROOT, "corpus/C18/corpus.jsonl")
 # findings retired by fix: commits must be removed from BOTH /verif/known_findings.json and this file (b3C18 did so for the six JSON ones)
@@ -41,7 +42,13 @@ PARTIAL = ("Theorems are about the hand-written models coq/C18/Model.v (JSON wri
            "equals the fresh-receiver reader for EVERY old state for dense/sparse vectors and matrices (JSON and tables), so all theorems "
            "above hold for recycled receivers; for Real scalars only when the document carries a gradient or Hessian "
            "(real_decode_receiver_independent_partial; F-JSON-REAL-RECV refuted). The state of a receiver after a decoder returned an "
-           "error is not modelled (Real: Value is already assigned; dense vector Import: already reset).")
+           "error is not modelled (Real: Value is already assigned; dense vector Import: already reset). "
+           "Round 7 (PropsR7.v): position-wise statements for containers whose elements carry different amounts of derivative "
+           "information (the document of element i is the scalar writer's for element i alone; gradient/Hessian of every position "
+           "exact, for vectors and every dense-matrix view) and the compact header of a table Import into any receiver state; the "
+           "sparse Real containers have no position-wise derivative theorem (their formats carry values only: sv_obs_eq); memory "
+           "aliasing between a view receiver and the object it was cut from is not modelled - that the parent is left alone is an "
+           "oracle check of the harness (failure kind recv-parent), not a theorem.")
 
 def findings():
     fs = list(vlib.known_findings("C18"))
@@ -109,7 +116,7 @@ def corr(ctx, binary, n):
             for i in r["mism"]:
                 bad.append(cases[k * meta["per_shard"] + i])
     orc = vlib.load_jsonl(os.path.join(ctx.dir, "oracle.jsonl"))
-    ctx.log("correspondence: %d cases in %d shards (JSON, tables, configurations, recycled receivers, vector/matrix registries), %d mismatching; oracle reported %d failures" % (
+    ctx.log("correspondence: %d cases in %d shards (JSON, tables, configurations, recycled receivers incl. same-shape views, mixed-order Real containers, vector/matrix registries), %d mismatching; oracle reported %d failures" % (
         ncases, nshards, len(bad), len(orc)))
     return bad, orc
 
@@ -148,8 +155,9 @@ def run(ctx):
     thms = vlib.theorem_names(os.path.join(vlib.COQ, "C18/Props.v"))
     rthms = vlib.theorem_names(os.path.join(vlib.COQ, "C18/PropsRecv.v"))
     vthms = vlib.theorem_names(os.path.join(vlib.COQ, "C18/PropsV.v"))
+    r7thms = vlib.theorem_names(os.path.join(vlib.COQ, "C18/PropsR7.v"))
     if ok:
-        ctx.cov["print_assumptions"] = vlib.print_assumptions("C18", [("C18.Props", thms), ("C18.PropsRecv", rthms), ("C18.PropsV", vthms)], ctx.dir)
+        ctx.cov["print_assumptions"] = vlib.print_assumptions("C18", [("C18.Props", thms), ("C18.PropsRecv", rthms), ("C18.PropsV", vthms), ("C18.PropsR7", r7thms)], ctx.dir)
     binary, blog = vlib.build_harness("c18")
     if binary is None:
         ctx.violation({"obligation": "build of harness/c18 against the library", "log": blog[-3000:]}, False,
